@@ -41,7 +41,7 @@ class Prop(PropBase):
         for i in range(500 if quick else 12000):
             cls = rng.choice(sigs.CLASSES)
             L = rng.choice([1, 2, 3, 8, 16, 17, 31, 64, 100, rng.randint(1, 128)])
-            rate = rng.choice([("1", "Hz"), ("1", "kHz"), ("16", "MHz"), ("1", "GHz"), ("250", "Hz")])
+            rate = rng.choice([("1", "Hz"), ("1", "kHz"), ("16", "MHz"), ("1", "GHz"), ("250", "Hz"), ("10", "Hz"), ("10", "Hz")])
             t0 = rng.choice(sigs.T0S + ([None] if rng.random() < 0.25 else []))
             n = rng.choice([0, 1, L, max(L - 1, 0), rng.randint(0, L), rng.randint(0, L), -1 if rng.random() < 0.3 else 1])
             r = rng.random()
@@ -209,6 +209,10 @@ class Prop(PropBase):
         # conversion noise next to a bound: don't-care
         near = min(abs(seen), abs(seen + n - L)) < F(1, 10**6) and seen != t
         if near:
+            # next to a bound the request may be taken either way (refused, or served as the whole-sample request it is within
+            # rounding of) — but never answered with another number of samples
+            if "err" not in code and code["len"] != n:
+                return f"returned {code['len']} samples, requested {n} (t within rounding of a bound)"
             return None
         valid = (0 <= seen) and (seen + n <= L)
         if not valid:
